@@ -435,9 +435,41 @@ static void conc_case(Rng& rng) {
 }
 
 /******************************************************************************/
+// mode=wide: more than 2^32 handles to one object. Real handles would need 32 GiB, so all but a few are
+// modelled by what a handle copy / release does to the object: inc_reference() / dec_reference() of its
+// ReferenceCounter. The count must not wrap, and the object dies at the very last release only.
+static void wide_case(Rng& rng) {
+    typedef tlx::CountingPtr<Obj> P;
+    uint64_t destroyed0 = Registry::get().destroyed;
+    P a(new Obj);
+    Obj* o = a.get();
+    const uint64_t M = (1ull << 32) + rng.below(5);
+    g_scenario = "one object, " + std::to_string(M) + " modelled handles + 2 real ones";
+    auto bad = [&](const std::string& key, const std::string& what) { verif::fail("C12:wide:" + key, what + " | " + g_scenario); };
+    for (uint64_t i = 0; i < M; ++i) o->inc_reference();
+    if (o->reference_count() != M + 1 || a.use_count() != M + 1) { bad("count", "use_count() is " + std::to_string(a.use_count()) + " with " + std::to_string(M + 1) + " handles"); return; }
+    if (a.unique()) { bad("unique", "unique() with " + std::to_string(M + 1) + " handles"); return; }
+    {
+        P b = a;
+        if (b.use_count() != M + 2) { bad("count", "use_count() is " + std::to_string(b.use_count()) + " with " + std::to_string(M + 2) + " handles"); return; }
+        b.reset();
+    }
+    if (Registry::get().destroyed != destroyed0) { bad("destroyed-early", "the object was destroyed by the release of one handle while " + std::to_string(M + 1) + " remain"); return; }
+    for (uint64_t i = 0; i < M; ++i)
+        if (o->dec_reference()) { bad("last-handle-reported-early", "dec_reference() reported the last handle with " + std::to_string(M - i) + " handles remaining"); return; }
+    if (a.use_count() != 1 || !a.unique()) { bad("count", "use_count() is " + std::to_string(a.use_count()) + " with one handle"); return; }
+    a.reset();
+    if (Registry::get().destroyed != destroyed0 + 1 || Registry::get().count() != 0) bad("not-destroyed", "the object was not destroyed exactly once by the last release");
+    Registry::get().live.clear(); Registry::get().errors = 0;
+    verif::count("wide_counts_checked");
+    verif::count("wide_reference_operations", 2 * M);
+    verif::cover("wide:handles>2^32");
+    verif::sample(g_scenario);
+}
 
 static void run_case(Rng& rng, uint64_t) {
     std::string mode = verif::param("mode", "seq");
+    if (mode == "wide") { wide_case(rng); return; }
     if (mode == "seq") {
         uint64_t o0 = g_ops;
         for (int r = 0; r < 20; ++r) {
